@@ -413,6 +413,11 @@ class ConsHist(Engine):
             q = ro.choice(["exists", "forall"])
             plain.append([q, [["w1", ["user", t1]], ["w2", ["user", t2]]], body])
             plain.append([q, [["w2", ["user", t2]], ["w1", ["user", t1]]], body])
+            if ro.random() < 0.5:
+                # no normalisation of the variable list is documented: a repeated variable is kept
+                w1, w2 = ["w1", ["user", t1]], ["w2", ["user", t2]]
+                plain.append([q, [w1], body])
+                plain.append([q, ro.choice([[w1, w1], [w1, w2, w1], [w2, w1, w1]]), body])
         # sharing
         for i in range(ro.randint(2, 6)):
             a, b = ro.choice(plain), ro.choice(plain)
